@@ -6,7 +6,7 @@ import itertools
 
 from . import ground, rec
 
-PIECES = ["a", "\r", "\n", "\r\n", "<b>", "&amp;", "&#13;", "\U0001F600", "\ud83d", "\ude00", "é", "\x00", "\ufdd0", "</b>", "<!--c-->", "x\ry", "=", "€"]
+PIECES = ["a", "<!-", "</", "&#", "\r", "\n", "\r\n", "<b>", "&amp;", "&#13;", "\U0001F600", "\ud83d", "\ude00", "é", "\x00", "\ufdd0", "</b>", "<!--c-->", "x\ry", "=", "€"]
 
 
 class ShortReads(io.TextIOBase):
@@ -37,11 +37,27 @@ class ShortByteReads(object):
         return out
 
 
+UNGET_AT_CHUNK_START = [0]
+
+
 def _observe(source, **kw):
     import html5lib
+    import html5lib._inputstream as IS
     from html5lib import treewalkers
     p = html5lib.HTMLParser()
-    doc = p.parse(source, **kw)
+    # note whether unget() ever runs with the cursor at the start of a chunk (site of the known finding C05-unget-position)
+    real_unget = IS.HTMLUnicodeInputStream.unget
+
+    def unget(self, char):
+        if char is not None and self.chunkOffset == 0:
+            UNGET_AT_CHUNK_START[0] += 1
+        return real_unget(self, char)
+    IS.HTMLUnicodeInputStream.unget = unget
+    UNGET_AT_CHUNK_START[0] = 0
+    try:
+        doc = p.parse(source, **kw)
+    finally:
+        IS.HTMLUnicodeInputStream.unget = real_unget
     toks = []
     for t in treewalkers.getTreeWalker("etree")(doc):
         if t["type"] in ("Characters", "SpaceCharacters"):
@@ -63,6 +79,20 @@ def _stream_level_error(text):
     if IS.invalid_unicode_re.search(text):
         return True
     return re.search("[\ud800-\udfff]", text) is not None
+
+
+def unget_position_witness():
+    """known finding: a character put back when the cursor is at the start of a chunk is counted twice by position()"""
+    import html5lib._inputstream as IS
+    text = "<!doctype html>a<!-\n=\np"
+    saved = IS.HTMLUnicodeInputStream._defaultChunkSize
+    a = _observe(text)[1]
+    try:
+        IS.HTMLUnicodeInputStream._defaultChunkSize = 1
+        b = _observe(text)[1]
+    finally:
+        IS.HTMLUnicodeInputStream._defaultChunkSize = saved
+    return a != b and [c for _, c in a] == [c for _, c in b]
 
 
 def stream_error_witness():
@@ -115,6 +145,10 @@ def run_family(max_len=3):
                     if got != base and isinstance(got, tuple) and got[0] == base[0] and _stream_level_error(text):
                         known += 1          # same tree, error list differs, text has a stream-level error
                         continue
+                    if got != base and isinstance(got, tuple) and got[0] == base[0] and UNGET_AT_CHUNK_START[0] \
+                            and [c for _, c in got[1]] == [c for _, c in base[1]]:
+                        known += 1          # same tree, same error codes; positions differ and unget() ran at a chunk start
+                        continue
                     if got != base:
                         bad.append([text.encode("unicode_escape").decode(), label, repr(got)[:160], repr(base)[:160]])
                 if len(bad) > 30:
@@ -131,7 +165,7 @@ def same_result_however_the_characters_arrive():
             "for every string of at most 3 pieces out of %d (CR, LF, CR LF, surrogate halves, astral, multi-byte, NUL, markup): the "
             "tree and the (position, code) list of parse errors are the same for the str, for text streams with reads of 1/2/3/7 "
             "characters, for internal chunk sizes 1/2/3, for UTF-8 bytes and for unseekable byte streams with reads of 1/2/3 bytes "
-            "(known-finding region: %d cases where only the position/order of a stream-level invalid-codepoint error differs)"
+            "(known-finding regions: %d cases where only the position/order of a stream-level invalid-codepoint error differs, or only error positions differ and unget() ran at the start of a chunk)"
             % (len(PIECES), known), witness=bad[:4] or None, exhaustive=False)
     r["bounded"] = "%d (input, delivery) cases" % n
     return r
